@@ -153,7 +153,7 @@ func c06(w *World) {
 		return k.method == "0" && k.hb >= limits[0] && k.hb <= limits[1] && k.user == goodUser && k.pass == goodPass
 	}
 
-	steps := 1 + w.W.Draw(14)
+	steps := 1 + w.W.Draw(w.Deep(14))
 	for i := 0; i < steps && len(w.Viol) == 0; i++ {
 		wasLogged := mayLogged
 		staleProbe := probeOutstanding && !mayLogged && endedOnce
